@@ -13,13 +13,14 @@
 //	                                          are the allocations the (in-process) Nexus API answers LookupIPv4 with
 //	disc m<k> <giaddr> <cid>                  DISCOVER  (cid = c<n>: option 82 circuit-id, or - ; malformed variants:
 //	                                          e = circuit-id sub-option of length 0, r = remote-id only, x = truncated TLV)
+//	discr m<k> <requested> <giaddr> <cid>     DISCOVER carrying a requested address (option 50, RFC 2131 4.3.1)
 //	req  m<k> <requested> <ciaddr> <giaddr> <cid>
 //	rel  m<k>
 //	dec  m<k> <requested>
 //	inf  m<k> <ciaddr>
 //	tick <minutes>                            virtual time passes; the real cleanup ticker fires each minute
 //	cleanup                                   one explicit cleanupExpiredLeases pass
-//	gap <disc|req|rel|dec …>                  one cleanup pass with the given message handled BETWEEN its read-locked scan
+//	gap <disc|discr|req|rel|dec …>            one cleanup pass with the given message handled BETWEEN its read-locked scan
 //	                                          and its write-locked removal (where another goroutine's handler can run);
 //	                                          observation `gap <inner reply> …`, or `gap notrun …` when nothing had expired
 //
@@ -346,6 +347,11 @@ func (r *run) msg(f []string) (reply string, ok bool) {
 			return "", false
 		}
 		return r.send(r.packet(dhcpv4.MessageTypeDiscover, macOf(f[1]), nil, nil, hexIP(arg(2)), opt82Data(arg(3)))), true
+	case "discr":
+		if len(f) != 5 || !validCidTok(f[4]) {
+			return "", false
+		}
+		return r.send(r.packet(dhcpv4.MessageTypeDiscover, macOf(f[1]), hexIP(arg(2)), nil, hexIP(arg(3)), opt82Data(arg(4)))), true
 	case "req":
 		if len(f) != 6 || !validCidTok(f[5]) {
 			return "", false
@@ -456,7 +462,7 @@ func (r *run) Do(op string) (obs string) {
 	}
 	var reply string
 	switch f[0] {
-	case "disc", "req", "rel", "dec", "inf":
+	case "disc", "discr", "req", "rel", "dec", "inf":
 		var ok bool
 		if reply, ok = r.msg(f); !ok {
 			return "badop"
@@ -568,6 +574,9 @@ func randOpD(r *rand.Rand, n net4, clients, cids int, extra []string, depth int)
 	}
 	switch x := r.Intn(100); {
 	case x < 26:
+		if r.Intn(3) == 0 { // DISCOVER naming the address the client would like (option 50)
+			return fmt.Sprintf("discr %s %s %s %s", m, hx.Pick(r, addrs), gi, cid)
+		}
 		return fmt.Sprintf("disc %s %s %s", m, gi, cid)
 	case x < 60:
 		req, ci := hx.Pick(r, addrs), "-"
@@ -596,9 +605,9 @@ func randOpD(r *rand.Rand, n net4, clients, cids int, extra []string, depth int)
 type pclient struct{ offered, leased string }
 
 func (comp) Gen(r *rand.Rand, tier string, emit func([]string)) {
-	nShort, nLong, nProto := 700, 15, 25
+	nShort, nLong, nProto, nWindow := 700, 15, 25, 600
 	if tier == "thorough" {
-		nShort, nLong, nProto = 20000, 400, 800
+		nShort, nLong, nProto, nWindow = 20000, 400, 800, 20000
 	}
 	nets := []net4{net29, net29, net29b, net30}
 	// configuration: lease 300 s (a multiple of the one-minute grid) or 290 s (expiry falls between the message
@@ -644,7 +653,124 @@ func (comp) Gen(r *rand.Rand, tier string, emit func([]string)) {
 	for i := 0; i < nProto; i++ {
 		emit(protoSeq(r, net29, 6, 200))
 	}
+	// the expired-but-unswept window: 3 clients, 3 addresses
+	for i := 0; i < nWindow; i++ {
+		emit(windowSeq(r))
+	}
 	exhaustive(r, tier, emit)
+}
+
+// windowSeq: histories around the window in which a lease has run out but the once-a-minute sweep has not removed
+// it yet (the lease is still in the table, its pool binding still exists).  Messages arrive on whole minutes and the
+// ticker fires 30 s later, so after `tick 5` a lease made at 0 (300 s or 290 s) is over and was not swept at 270.
+// The skeleton is
+//
+//	A obtains X;  tick 5;  A: DISCOVER naming Y (option 50);  B: REQUEST X;  sweep;  C: REQUEST X
+//
+// over 3 clients and the first 3 host addresses, with every role drawn at random (so A, B, C and X, Y coincide
+// often), every step dropped or replaced now and then, and random window messages in between.
+func windowSeq(r *rand.Rand) []string {
+	n := net29
+	hosts := []string{fmt.Sprintf("%x", n.base+2), fmt.Sprintf("%x", n.base+3), fmt.Sprintf("%x", n.base+4)}
+	cl := func() string { return fmt.Sprintf("m%d", 1+r.Intn(3)) }
+	ad := func() string { return hosts[r.Intn(len(hosts))] }
+	other := func(not string, f func() string) string { // mostly a different one
+		x := f()
+		for i := 0; i < 3 && x == not; i++ {
+			x = f()
+		}
+		return x
+	}
+	noise := func() string {
+		switch x := r.Intn(100); {
+		case x < 30:
+			return fmt.Sprintf("discr %s %s - -", cl(), hx.Pick(r, append([]string{"-", "0", fmt.Sprintf("%x", n.gw)}, hosts...)))
+		case x < 40:
+			return fmt.Sprintf("disc %s - -", cl())
+		case x < 72:
+			return fmt.Sprintf("req %s %s - - -", cl(), ad())
+		case x < 80:
+			return fmt.Sprintf("req %s - %s - -", cl(), ad())
+		case x < 88:
+			return "rel " + cl()
+		case x < 94:
+			return fmt.Sprintf("dec %s %s", cl(), ad())
+		default:
+			return fmt.Sprintf("discr %s %s %s c1", cl(), ad(), giaddrTok)
+		}
+	}
+	// lease 290: over at `tick 5` for DISCOVER/REQUEST and for an explicit `cleanup`; lease 300: over for the handlers
+	// (not Before its end) but not yet for `cleanup` (not After its end) - only the next ticker pass removes it
+	seq := []string{n.newOp(hx.Pick(r, []int{290, 290, 300}))}
+	maybeNoise := func() {
+		for r.Intn(4) == 0 {
+			seq = append(seq, noise())
+		}
+	}
+	a, x := cl(), hosts[0]
+	// A obtains X (the head of the free list): DISCOVER + REQUEST, INIT-REBOOT REQUEST, or DISCOVER naming it
+	switch r.Intn(4) {
+	case 0:
+		seq = append(seq, fmt.Sprintf("req %s %s - - -", a, x))
+	case 1:
+		seq = append(seq, fmt.Sprintf("discr %s %s - -", a, x), fmt.Sprintf("req %s %s - - -", a, x))
+	default:
+		seq = append(seq, fmt.Sprintf("disc %s - -", a), fmt.Sprintf("req %s %s - - -", a, x))
+	}
+	if r.Intn(3) == 0 { // a second lessee
+		b := other(a, cl)
+		seq = append(seq, fmt.Sprintf("req %s %s - - -", b, hosts[1]))
+	}
+	maybeNoise()
+	// the lease runs out, the sweep has not run (tick 4: not yet over; tick 6: swept at 330)
+	seq = append(seq, fmt.Sprintf("tick %d", hx.Pick(r, []int{5, 5, 5, 5, 5, 5, 4, 6})))
+	maybeNoise()
+	y := other(x, ad)
+	if r.Intn(8) != 0 {
+		who := a
+		if r.Intn(6) == 0 {
+			who = cl()
+		}
+		seq = append(seq, fmt.Sprintf("discr %s %s - -", who, y))
+	}
+	maybeNoise()
+	b := other(a, cl)
+	if r.Intn(8) != 0 {
+		if r.Intn(5) == 0 {
+			seq = append(seq, fmt.Sprintf("disc %s - -", b)) // takes the head of the free list
+		} else {
+			want := x
+			if r.Intn(6) == 0 {
+				want = ad()
+			}
+			seq = append(seq, fmt.Sprintf("req %s %s - - -", b, want))
+		}
+	}
+	maybeNoise()
+	// the sweep (or the first client's RELEASE, which frees by address as well)
+	switch r.Intn(8) {
+	case 0:
+		seq = append(seq, "rel "+a)
+	case 1:
+		seq = append(seq, "gap "+noise())
+	case 2, 3:
+		seq = append(seq, "tick 1")
+	default:
+		seq = append(seq, "cleanup")
+	}
+	maybeNoise()
+	c := other(b, cl)
+	switch r.Intn(6) {
+	case 0:
+		seq = append(seq, fmt.Sprintf("disc %s - -", c))
+	case 1:
+		seq = append(seq, fmt.Sprintf("discr %s %s - -", c, x), fmt.Sprintf("req %s %s - - -", c, x))
+	default:
+		seq = append(seq, fmt.Sprintf("req %s %s - - -", c, x))
+	}
+	maybeNoise()
+	seq = append(seq, "disc m9 - -")
+	return seq
 }
 
 // protoSeq cannot see replies (sequences are generated before they run), so it tracks what a correct
@@ -691,14 +817,17 @@ func protoSeq(r *rand.Rand, n net4, clients, depth int) []string {
 //	G : 2 clients, depth 4, 13 letters on the /30 with lease 290 s: messages handled INSIDE the lock gap of a cleanup
 //	    pass (`gap …`), exact ticks, two malformed option-82 letters
 //	N : Nexus mode, 3 clients, depth 3, 17 letters (Nexus allocation, local address, decline of the Nexus address)
+//	W : the expired-but-unswept window (m1 leases the first host, `tick 5`): 3 clients, 2 addresses, depth 4, 12 letters
+//	    (DISCOVER with / without option 50, REQUEST by the lessee and by the others, RELEASE, `cleanup`, `tick 1`)
 //
 // each followed by two closing DISCOVERs.  thorough: all of it (~0.83 million sequences); quick: a seeded sample.
 func exhaustive(r *rand.Rand, tier string, emit func([]string)) {
 	type scope struct {
-		newOp string
-		alpha []string
-		depth int
-		keep  int // quick tier: keep one in `keep`
+		newOp  string
+		alpha  []string
+		depth  int
+		keep   int      // quick tier: keep one in `keep`
+		prefix []string // fixed operations between `new` and the enumerated part
 	}
 	var scopes []scope
 	// A1
@@ -716,7 +845,7 @@ func exhaustive(r *rand.Rand, tier string, emit func([]string)) {
 		}
 		a = append(a, fmt.Sprintf("req m2 %x - %s c1", n.base+2, giaddrTok), fmt.Sprintf("req m1 %x - - c1", n.base+2),
 			"tick 5", "tick 6", "cleanup")
-		scopes = append(scopes, scope{n.newOp(300), a, nd.depth, nd.keep})
+		scopes = append(scopes, scope{n.newOp(300), a, nd.depth, nd.keep, nil})
 	}
 	// A2
 	{
@@ -724,7 +853,7 @@ func exhaustive(r *rand.Rand, tier string, emit func([]string)) {
 		x := n.base + 2
 		a := []string{"disc m1 - -", fmt.Sprintf("req m1 %x - - -", x), "disc m2 - -", fmt.Sprintf("req m2 %x - - -", x),
 			fmt.Sprintf("dec m1 %x", x), "rel m1", "tick 5", "tick 6"}
-		scopes = append(scopes, scope{n.newOp(300), a, 6, 90})
+		scopes = append(scopes, scope{n.newOp(300), a, 6, 90, nil})
 	}
 	// B, C
 	for _, sc := range []struct {
@@ -750,7 +879,7 @@ func exhaustive(r *rand.Rand, tier string, emit func([]string)) {
 			a = append(a, fmt.Sprintf("dec %s %x", m, n.base+2))
 		}
 		a = append(a, "tick 6", fmt.Sprintf("disc m2 %s c1", giaddrTok), fmt.Sprintf("req m1 %x - %s c1", n.base+2, giaddrTok))
-		scopes = append(scopes, scope{n.newOp(300), a, sc.depth, sc.keep})
+		scopes = append(scopes, scope{n.newOp(300), a, sc.depth, sc.keep, nil})
 	}
 	// G: lease 290 s — at `tick 5` the lease has run out but the ticker has not fired yet
 	{
@@ -761,7 +890,7 @@ func exhaustive(r *rand.Rand, tier string, emit func([]string)) {
 			fmt.Sprintf("gap req m1 %x - - -", x), "gap rel m1", fmt.Sprintf("gap req m2 %x - - -", x),
 			fmt.Sprintf("gap dec m1 %x", x),
 			fmt.Sprintf("req m1 %x - %s e", x, giaddrTok), fmt.Sprintf("req m1 %x - %s x", x, giaddrTok)}
-		scopes = append(scopes, scope{n.newOp(290), a, 4, 6})
+		scopes = append(scopes, scope{n.newOp(290), a, 4, 6, nil})
 	}
 	// N: Nexus mode; m1 is an activated subscriber (allocation 10.1.0.5), m2 and m3 live in the walled garden
 	{
@@ -773,7 +902,19 @@ func exhaustive(r *rand.Rand, tier string, emit func([]string)) {
 				fmt.Sprintf("req %s %x - - -", m, n.base+2), "rel "+m, fmt.Sprintf("dec %s a010005", m))
 		}
 		a = append(a, "tick 6", fmt.Sprintf("req m2 %x - - -", n.gw))
-		scopes = append(scopes, scope{n.newOp(300) + " m1:a010005", a, 3, 3})
+		scopes = append(scopes, scope{n.newOp(300) + " m1:a010005", a, 3, 3, nil})
+	}
+	// W: the expired-but-unswept window.  m1 holds X = first host (lease 290 s); at `tick 5` (300 s) its lease is over,
+	// the sweep has not run (it ran at 270 s), and an explicit `cleanup` would remove it.  3 clients, 2 addresses (X, Y), depth 4, 12 letters: DISCOVER with and without option 50, REQUEST
+	// for X / Y by the lessee and by the others, RELEASE, the sweep (`cleanup`, `tick 1`).
+	{
+		n := net29
+		x, y := n.base+2, n.base+3
+		a := []string{
+			fmt.Sprintf("discr m1 %x - -", y), "disc m1 - -", fmt.Sprintf("discr m2 %x - -", x), "disc m2 - -",
+			fmt.Sprintf("req m1 %x - - -", y), fmt.Sprintf("req m1 %x - - -", x), fmt.Sprintf("req m2 %x - - -", x),
+			fmt.Sprintf("req m3 %x - - -", x), fmt.Sprintf("req m2 %x - - -", y), "rel m1", "cleanup", "tick 1"}
+		scopes = append(scopes, scope{n.newOp(290), a, 4, 40, []string{fmt.Sprintf("req m1 %x - - -", x), "tick 5"}})
 	}
 	for _, sc := range scopes {
 		var rec func(prefix []string, depth int)
@@ -782,7 +923,7 @@ func exhaustive(r *rand.Rand, tier string, emit func([]string)) {
 				if tier != "thorough" && r.Intn(sc.keep) != 0 {
 					return
 				}
-				seq := append([]string{sc.newOp}, prefix...)
+				seq := append(append([]string{sc.newOp}, sc.prefix...), prefix...)
 				// closing observers: what a fresh client and the first client are told afterwards
 				seq = append(seq, "disc m9 - -", "disc m1 - -")
 				emit(seq)
